@@ -89,6 +89,14 @@ def main():
         tb = traceback.extract_tb(e.__traceback__)
         repo = os.path.realpath(fw.REPO)
         in_repo = [f for f in tb if os.path.realpath(f.filename).startswith(repo + os.sep)]
+        if not in_repo and e.__cause__ is not None:
+            # raised in a multiprocessing worker: the frames survive only as the text of the RemoteTraceback
+            import re
+            import collections
+            F = collections.namedtuple('F', 'filename lineno name')
+            for m in re.finditer(r'File "([^"]+)", line (\d+), in (\S+)', str(e.__cause__)):
+                if os.path.realpath(m.group(1)).startswith(repo + os.sep):
+                    in_repo.append(F(m.group(1), int(m.group(2)), m.group(3)))
         if in_repo and not args.replay:
             path = fw.write_replay(pid, {
                 'property': pid, 'kind': 'obligation',
